@@ -87,6 +87,14 @@ func (e *SpecEnv) typeByName(n string) types.Type {
 	if t := basicByName(n); t != nil {
 		return t
 	}
+	switch n {
+	case "interface{}", "any":
+		return types.NewInterfaceType(nil, nil)
+	case "error":
+		return types.Universe.Lookup("error").Type()
+	case "unsafe.Pointer":
+		return types.Typ[types.UnsafePointer]
+	}
 	if i := strings.Index(n, "."); i >= 0 {
 		pn, tn := n[:i], n[i+1:]
 		if e.pkg != nil {
@@ -215,8 +223,29 @@ func (e *SpecEnv) eval(x SExpr, hint types.Type) Val {
 	return Val{}
 }
 
+func (e *SpecEnv) ghostType(name string) (types.Type, bool) {
+	tn, ok := e.c.eng.ghosts[name]
+	if !ok {
+		return nil, false
+	}
+	if tn == "bytes" {
+		return types.NewArray(types.Typ[types.Uint8], 1<<40), true
+	}
+	return e.typeByName(tn), true
+}
+
 func (e *SpecEnv) ident(name string, hint types.Type) Val {
 	c := e.c
+	if strings.HasPrefix(name, "$") {
+		t, ok := e.ghostType(name)
+		if !ok {
+			sfail("undeclared ghost variable %s", name)
+		}
+		if e.st == nil {
+			sfail("ghost variable %s used in a state-free context", name)
+		}
+		return Val{T: t, S: c.heap(e.st, name, c.sortOf(t))}
+	}
 	if e.cells {
 		if v, ok := e.localVar(name); ok {
 			return v
@@ -405,6 +434,15 @@ func (e *SpecEnv) field(n *SField) Val {
 				}
 			}
 			return Val{T: st.Field(idx).Type(), S: c.load(e.st, &q)}
+		}
+		// pointer to a heap struct: read the field's own heap directly
+		if pt, ok := v.T.Underlying().(*types.Pointer); ok && e.st != nil {
+			if st, ok := pt.Elem().Underlying().(*types.Struct); ok {
+				if idx := fieldIndex(st, n.Name); idx >= 0 {
+					p := &Path{Kind: rootHeap, T: pt.Elem(), Ref: v.S, Steps: []Step{{Field: idx}}}
+					return Val{T: st.Field(idx).Type(), S: c.load(e.st, p)}
+				}
+			}
 		}
 		v = e.deref(v)
 	}
@@ -733,22 +771,25 @@ func (e *SpecEnv) call(n *SCall, hint types.Type) Val {
 			return Val{T: I, S: fmt.Sprintf("(soff %s)", v.S)}
 		}
 		return Val{T: I, S: fmt.Sprintf("(xoff %s)", v.S)}
-	case "fresh":
+	case "fresh", "alive":
 		v := e.eval(n.Args[0], nil)
-		c.decl("fn:alive0", "(declare-fun alive0 (Int) Bool)")
 		s := v.S
 		if _, isSlice := v.T.Underlying().(*types.Slice); isSlice {
 			s = fmt.Sprintf("(sbase %s)", v.S)
 		}
-		return Val{T: types.Typ[types.Bool], S: fmt.Sprintf("(and (> %s 0) (not (alive0 %s)))", s, s)}
-	case "alive":
-		v := e.eval(n.Args[0], nil)
-		c.decl("fn:alive0", "(declare-fun alive0 (Int) Bool)")
-		s := v.S
-		if _, isSlice := v.T.Underlying().(*types.Slice); isSlice {
-			s = fmt.Sprintf("(sbase %s)", v.S)
+		if e.st == nil {
+			sfail("%s() in a state-free context", n.Fn)
 		}
-		return Val{T: types.Typ[types.Bool], S: fmt.Sprintf("(alive0 %s)", s)}
+		ref := e.st
+		if e.old != nil {
+			ref = e.old
+		}
+		if n.Fn == "alive" {
+			// existed when the function (or the callee, at a call site) started
+			return Val{T: types.Typ[types.Bool], S: fmt.Sprintf("(and (> %s 0) (< (born %s) %s))", s, s, c.now(ref))}
+		}
+		// allocated during the function (or by the callee): distinct from everything that existed at its start
+		return Val{T: types.Typ[types.Bool], S: fmt.Sprintf("(and (> %s 0) (>= (born %s) %s) (< (born %s) %s))", s, s, c.now(ref), s, c.now(e.st))}
 	case "ptrindex": // index of a raw byte pointer within its array
 		v := e.eval(n.Args[0], nil)
 		if v.P == nil || len(v.P.Steps) == 0 || !v.P.Steps[len(v.P.Steps)-1].IsIdx {
@@ -1002,6 +1043,13 @@ func (e *SpecEnv) lvalue(x SExpr) lval {
 			return lval{path: inner.path.extend(Step{IsIdx: true, Idx: c.toIdx(iv.S, iv.T)}), t: at.Elem()}
 		}
 	case *SIdent:
+		if strings.HasPrefix(n.Name, "$") {
+			t, ok := e.ghostType(n.Name)
+			if !ok {
+				sfail("undeclared ghost variable %s", n.Name)
+			}
+			return lval{path: &Path{Kind: rootGhost, Ref: n.Name, T: t}, t: t}
+		}
 		// global variable or local cell
 		if e.cells {
 			if v, ok := e.localVar(n.Name); ok && v.P != nil {
